@@ -119,7 +119,7 @@ def sens_case(draw, tier="quick"):
     k = draw(st.sampled_from(list(sens_el)))
     n = draw(st.integers(1, 8))
     vals = draw(st.lists(sens_el[k], min_size=n, max_size=n))
-    mode = draw(st.sampled_from(["change", "change", "swap", "permute", "table_cell", "table_columns", "twin"]))
+    mode = draw(st.sampled_from(["change", "change", "swap", "permute", "table_cell", "table_columns", "twin", "failed"]))
     i, j = draw(st.integers(0, n - 1)), draw(st.integers(0, n - 1))
     new = draw(sens_el[k])
     perm = draw(st.permutations(list(range(n))))
@@ -176,8 +176,11 @@ def run_twin(case, ctx):
         return
     via = case["via"]
     ctx.ev()
+    # a day and its midnight are unequal and hash differently (unlike 1 and 1.0): such a write has to be noticed as well
+    must_change = vals[i] != tw and _hash_distinct(vals[i], tw)
     if via in ("table_item", "view", "attr"):
         t = R.build_table([("a", list(vals)), ("b", list(case["other"]))])
+        fp_before_t = fresh_fp(t)
         if case["read_first"]:
             t.fingerprint()
             t.cols()[0].fingerprint()
@@ -190,6 +193,9 @@ def run_twin(case, ctx):
                 t[i, "a"] = tw
         except Exception:  # noqa: BLE001
             return
+        if must_change and t.fingerprint() == fp_before_t:
+            return ctx.fail(f"change-not-noticed/table/next-rung-overwrite/{type(vals[i]).__name__}",
+                            f"{vals}[{i}] = {tw!r}: {vals[i]!r} != {tw!r} and hash() tells them apart, the table's fingerprint stayed {fp_before_t}")
         if t.fingerprint() != fresh_fp(t):
             return ctx.fail(f"stale/table/equal-valued-overwrite/{via}/{type(vals[i]).__name__}",
                             f"{vals}[{i}] = {tw!r} (cached={case['read_first']}): column now {list(t.cols()[0])}")
@@ -198,6 +204,7 @@ def run_twin(case, ctx):
             return ctx.fail(f"stale/vector/equal-valued-overwrite/{via}/{type(vals[i]).__name__}", f"{vals}[{i}] = {tw!r}")
     else:
         v = S.Vector(list(vals))
+        fp_before_v = S.Vector(list(vals)).fingerprint()
         if case["read_first"]:
             v.fingerprint()
         try:
@@ -207,6 +214,9 @@ def run_twin(case, ctx):
                 v[[i]] = [tw]
         except Exception:  # noqa: BLE001
             return
+        if must_change and v.fingerprint() == fp_before_v:
+            return ctx.fail(f"change-not-noticed/vector/next-rung-overwrite/{type(vals[i]).__name__}",
+                            f"{vals}[{i}] = {tw!r}: {vals[i]!r} != {tw!r} and hash() tells them apart, the fingerprint stayed {fp_before_v}")
         if v.fingerprint() != S.Vector(list(v)).fingerprint():
             return ctx.fail(f"stale/vector/equal-valued-overwrite/{via}/{type(vals[i]).__name__}",
                             f"{vals}[{i}] = {tw!r} (cached={case['read_first']}): now {list(v)}")
@@ -215,10 +225,51 @@ def run_twin(case, ctx):
         ctx.nontrivial()
 
 
+def run_failed(case, ctx):
+    """a write that is refused (bad position, wrong length, a value the column does not take) leaves the fingerprint what a
+    fresh build of the (unchanged or not) contents gives - also when the refusal comes after a promotion was prepared"""
+    vals, i = case["vals"], case["i"]
+    n = len(vals)
+    wider = _twin(vals[i]) if _twin(vals[i]) is not None else case["new"]
+    via = case["via"]
+    if via in ("table_item", "view", "attr"):
+        t = R.build_table([("a", list(vals)), ("b", list(case["other"]))])
+        target, col = t, t.cols()[0]
+    else:
+        t = None
+        target = col = S.Vector(list(vals))
+    if case["read_first"]:
+        target.fingerprint()
+        col.fingerprint()
+    attempts = [lambda: col.__setitem__([i, n + 1], [wider, wider]), lambda: col.__setitem__((i, -n - 2), [wider, wider]),
+                lambda: col.__setitem__(S.Vector([i, n + 3]), [wider, wider]), lambda: col.__setitem__(slice(0, n), [wider] * (n + 1)),
+                lambda: col.__setitem__([i], [wider, wider])]
+    if t is not None:
+        attempts += [lambda: t.__setitem__(((i, n + 1), "a"), wider), lambda: t.__setitem__((i, slice(None)), [wider]),
+                     lambda: t.__setitem__((n + 2, "a"), wider)]
+    refused = 0
+    for k_, attempt in enumerate(attempts):
+        ctx.ev()
+        try:
+            attempt()
+        except Exception:  # noqa: BLE001
+            refused += 1
+        if col.fingerprint() != S.Vector(list(col)).fingerprint():
+            return ctx.fail(f"stale/vector/after-refused-write/{type(vals[i]).__name__}",
+                            f"{vals}: attempt {k_} with {wider!r} (cached={case['read_first']}), now {list(col)}")
+        if t is not None and t.fingerprint() != fresh_fp(t):
+            return ctx.fail(f"stale/table/after-refused-write/{type(vals[i]).__name__}", f"{vals}: attempt {k_} with {wider!r}")
+    ctx.label("refused_writes", refused)
+    if refused and case["read_first"]:
+        ctx.nontrivial()
+
+
 def run_sens(case, ctx):
     vals, mode, i, j = case["vals"], case["mode"], case["i"], case["j"]
     if mode == "twin":
         return run_twin(case, ctx)
+    if mode == "failed":
+        return run_failed(case, ctx)
     after = list(vals)
     if mode in ("change", "table_cell"):
         after[i] = case["new"]
